@@ -1,4 +1,5 @@
 mod common;
+mod c03;
 mod c05;
 mod c06;
 
@@ -8,6 +9,7 @@ fn main() {
     let (prop, tier, seed, dir) = (a[1].as_str(), a[2].as_str(), a[3].parse::<u64>().unwrap_or(0), a[4].as_str());
     common::quiet_panics();
     match prop {
+        "C03" => c03::run(tier, seed, dir),
         "C05" => c05::run(tier, seed, dir),
         "C06" => c06::run(tier, seed, dir),
         _ => { eprintln!("unknown property {}", prop); std::process::exit(2); }
